@@ -284,7 +284,7 @@ func runCase(r *ev.Run, k kase) {
 }
 
 func configs(r *ev.Run) []config {
-	maxWM := int64(r.Pick(4, 8))       // through Slice
+	maxWM := int64(r.Pick(4, 6))       // through Slice
 	maxDirect := int64(r.Pick(6, 8)) // SlidingWindow directly
 	var cs []config
 	starts := func(w int64) []int64 {
@@ -442,7 +442,7 @@ func main() {
 	r.Set("configs", len(cs))
 	r.Set("per_mode", perMode)
 	r.Set("bounds", fmt.Sprintf("W,M in 1..%d (direct) / 1..%d (through Slice) plus disabled (W or M <= 0, strategies not installed); start clock in {0, W-1, 1e9}; time deltas {0,1,2,W-1,W,W+1,3W}; depth %d (SlidingWindow.Trigger direct) / %d (Slice.TryFuse, Slice.GetSlaveConn, 7 error kinds per step); policies hard, gradual",
-		r.Pick(6, 8), r.Pick(4, 8), depthDirect, depthSlice))
+		r.Pick(6, 8), r.Pick(4, 6), depthDirect, depthSlice))
 	r.Set("explanation", "states = distinct canonical (window private state, clock mod W, live reference timestamps) per configuration, summed; transitions = histories replayed on fresh real objects (every one executes the real Trigger/TryFuse/GetSlaveConn and is compared with the reference count after every step); distinct_nontrivial = distinct states reached in which an earlier recorded error had already expired while the window still held errors (bucket expiry / reuse really exercised); distinct_outcomes = distinct (mode, fired, errors in window) observations")
 	r.Assume("Slice.TryFuse reads the clock through vclock (time.Now rewritten in backend/slice.go, node_fuse.go, node.go); SlidingWindow.Trigger receives the timestamp as an argument and is not rewritten")
 	r.Assume("timestamps are non-decreasing non-negative unix seconds (the property's quantifier); 'connection error' = a mysql.ConnTypeError value as produced by DirectConnection.connect and util.ResourcePool (pool time-out included)")
